@@ -1,2 +1,3 @@
+import Props.Cells
 import Props.C13
 import Props.C16
